@@ -24,6 +24,7 @@ ASSUMPTIONS = [
     'flight ids are distinct within a store (the documented precondition)',
     'all store work happens in the main thread of a fresh process per shard',
 ]
+CRASH_IS_VIOLATION = True   # a native crash of netCDF4/HDF5 under the store workload
 SHARD_TIMEOUT = {'quick': 600, 'thorough': 3600}
 LEVEL_TEXT = ('Exploration by model-based runtime monitoring: short random histories on '
               'real stores with a dict model of flight ids; lookups are forced while the '
